@@ -297,16 +297,15 @@ class IndexedCache:
 
         # Follow the concrete chain as far as it exists without exceptions
         while key in assignment:
-            next_cache = cache.get(assignment[key])
-            if next_cache is None:
+            # presence is membership: what is stored under a key may be any output, None included.
+            if assignment[key] not in cache:
                 # Try wildcard branch at this level
-                wildcard = cache.get(All)
-                if wildcard is not None:
-                    yield from self._yield_result(assignment, wildcard, key_idx, result)
+                if All in cache:
+                    yield from self._yield_result(assignment, cache[All], key_idx, result)
                 else:
                     self.search_count += 1
                 return
-            cache = next_cache
+            cache = cache[assignment[key]]
             if key_idx + 1 < n_keys:
                 key_idx += 1
                 key = keys[key_idx]
@@ -315,9 +314,8 @@ class IndexedCache:
 
         if key not in assignment:
             # Prefer wildcard branch if available
-            wildcard = cache.get(All)
-            if wildcard is not None:
-                yield from self._yield_result(assignment, wildcard, key_idx, result)
+            if All in cache:
+                yield from self._yield_result(assignment, cache[All], key_idx, result)
             else:
                 # Explore all branches at this level, copying only the minimal delta
                 for cache_key, cache_val in cache.items():
